@@ -211,8 +211,15 @@ def wantVals (g : Graph) : Nat → S → List Nat → WR Unit
     | .bad m => .bad m
 end
 
-/-- Fuel that always suffices for the want phase (proved in Props/C06). -/
-def wantFuel (g : Graph) : Nat := 4 * (g.nBuilds + 1) * (g.nFiles + 1) + 4
+/-- The longest input list (ordering or validation) of any build. -/
+def maxIns (g : Graph) : Nat :=
+  (List.range g.nBuilds).foldl (fun m b => max m (max (g.build b).ordering.length (g.build b).validation.length)) 0
+
+/-- Fuel that always suffices for the want phase (proved in Lemmas/SchedWantTerm, exposed in
+    Props/C06): each nested `want_file`/`want_build` pair costs 3 levels plus the position in the
+    input list being walked, and nesting is bounded by (#Unknown builds + 1) x (#files + 1) (the
+    cycle stack holds no file twice; crossing a validation edge happens after a build left Unknown). -/
+def wantFuel (g : Graph) : Nat := (maxIns g + 3) * ((g.nBuilds + 1) * (g.nFiles + 1)) + 2
 
 /-- `Work::want_file`. -/
 def want (g : Graph) (s : S) (f : Nat) : WR Unit :=
